@@ -34,6 +34,10 @@ def toBits : F64 → Nat
         (m * 2^sh, e - sh)
     if m' ≥ 2^52 then s + ((e' + 1075).toNat) * 2^52 + (m' - 2^52) else s + m'
 
+/-- the rounded significand/exponent as a value; `none` = beyond the largest finite binary64 (overflow) -/
+def mkFin (neg : Bool) (m : Nat) (e : Int) : Option F64 :=
+  if e + 52 > 1023 ∧ m ≥ 2^52 then none else some (.fin neg m e)
+
 /-- round the non-negative rational n/d (d > 0) to nearest binary64, ties to even. none = overflow. -/
 def roundRat (neg : Bool) (n d : Nat) : Option F64 :=
   if n == 0 then some (.fin neg 0 0) else
@@ -52,7 +56,7 @@ def roundRat (neg : Bool) (n d : Nat) : Option F64 :=
   -- round half even
   let q' := if 2 * r > b then q + 1 else if 2 * r == b then (if q % 2 == 1 then q + 1 else q) else q
   let (m, e) : Nat × Int := if q' == 2^53 then (2^52, k + 1) else (q', k)
-  if e + 52 > 1023 ∧ m ≥ 2^52 then none else some (.fin neg m e)
+  mkFin neg m e
 
 /-- decimal literal: digits * 10^exp10 -/
 def ofDecimal (neg : Bool) (digits : Nat) (exp10 : Int) : Option F64 :=
